@@ -34,7 +34,7 @@ def do_case(ctx, inp):
         for n, (lo, hi) in rest.items():
             r = ctx.rng.random()
             if r < 0.6:
-                c = ctx.rng.randint(lo, hi); I[n] = (c, c)
+                c = pick_in(ctx.rng, lo, hi); I[n] = (c, c)
             elif r < 0.8:
                 x = ctx.rng.randint(lo, hi); I[n] = (x, ctx.rng.randint(x, hi))
         lhs = copy.deepcopy(assumed).evaluate(render_interp(ctx.rng, I))
